@@ -16,6 +16,9 @@ import (
 	"flag"
 	"fmt"
 	"math/rand"
+	"os"
+	"path/filepath"
+	"sort"
 	"strings"
 
 	"github.com/bobertlo/gmars"
@@ -493,6 +496,9 @@ func cmdBattles(args []string) {
 	hostile := fs.Bool("hostile", false, "fully random instruction values")
 	extra := fs.Int("extra", 0, "extra RunCycle calls after the battle ended")
 	maxw := fs.Int("maxw", 4, "max warriors")
+	real := fs.Int("real", 0, "additional battles between repository warriors on the 8000-cell core")
+	realCycles := fs.Int("realcycles", 300, "cycle limit of those battles")
+	repo := fs.String("repo", "/repo", "repository root")
 	fs.Parse(args)
 	r := rand.New(rand.NewSource(*seed))
 	w := newShardWriter(*out, *shards)
@@ -511,6 +517,40 @@ func cmdBattles(args []string) {
 			w.line(l)
 		}
 		w.nextUnit()
+	}
+	// battles between the repository's own warriors on the standard 8000-cell core (cycle limit shortened)
+	if *real > 0 {
+		files, _ := filepath.Glob(filepath.Join(*repo, "warriors", "94", "*.red"))
+		sort.Strings(files)
+		var pool []wdata
+		for _, f := range files {
+			b, err := os.ReadFile(f)
+			if err != nil {
+				continue
+			}
+			wd, err := gmars.CompileWarrior(strings.NewReader(string(b)), gmars.ConfigNOP94)
+			if err != nil {
+				continue
+			}
+			code := make([]ins, len(wd.Code))
+			for i := range wd.Code {
+				code[i] = fromG(wd.Code[i])
+			}
+			pool = append(pool, wdata{code, wd.Start})
+		}
+		for k := 0; k < *real && len(pool) > 0; k++ {
+			cfg := simCfg{M: 8000, P: 8000, C: *realCycles, RL: 8000, WL: 8000}
+			if r.Intn(3) == 0 {
+				cfg.RL, cfg.WL = 4000, 500
+			}
+			ws := []wdata{pool[r.Intn(len(pool))], pool[r.Intn(len(pool))]}
+			offs := []int{r.Intn(8000), 0}
+			offs[1] = (offs[0] + 200 + r.Intn(7000)) % 8000
+			for _, l := range recordBattle(r, cfg, ws, offs, false, *twin, 0, st) {
+				w.line(l)
+			}
+			w.nextUnit()
+		}
 	}
 	w.close()
 	fmt.Printf(`{"battles":%d,"events":%d,"cycles":%d,"multi_death":%d,"at_limit":%d,"three_plus":%d,"end_cycle":%d,"end_lone":%d,"end_survivor":%d,"mid_death":%d,"panics":%d}`+"\n",
